@@ -243,8 +243,8 @@ CaseOutcome prop_execute(const std::string & case_json) {
                 oc.fail("signal_fields", strf("signal %d: source %u type %u data_type 0x%x rate %u; written source %d type %d data_type 0x%x rate %u", want_ids[k], g.source_id, g.signal_type, g.data_type, g.sample_rate, d.src, d.stype, s.dt->code, want_rate));
                 break;
             }
-            uint32_t want_adf = d.annodf ? d.annodf : 100, want_udf = d.utcdf ? d.utcdf : 100;
-            if (s.dt->bits != 24 && (g.annotation_decimate_factor != want_adf || g.utc_decimate_factor != want_udf)) {
+            uint32_t want_adf = d.annodf ? std::max<uint32_t>(d.annodf, 10) : 100, want_udf = d.utcdf ? std::max<uint32_t>(d.utcdf, 10) : 100;   // minimum 10, default 100
+            if ((g.annotation_decimate_factor != want_adf || g.utc_decimate_factor != want_udf)) {
                 oc.fail("signal_fields", strf("signal %d: annotation/utc decimate factors %u/%u, expected %u/%u", want_ids[k], g.annotation_decimate_factor, g.utc_decimate_factor, want_adf, want_udf));
                 break;
             }
